@@ -214,6 +214,28 @@ theorem lift_run (l : List Ev) : ∀ (p : PSt) (s' : St), (∀ e ∈ l, envEv e 
       rw [pstep_own p e s1 (hall e List.mem_cons_self) hs]
       exact ih ⟨s1, p.ops, p.m⟩ s' (fun x hx => hall x (List.mem_cons_of_mem _ hx)) h
 
+/-- number of stutters along the program run of `l` from `p` -/
+def nStut : PSt → List Ev → Nat
+  | _, [] => 0
+  | p, e :: l =>
+    match pstep p e with
+    | none => 0
+    | some p' => (if stutter p.s e then 1 else 0) + nStut p' l
+
+theorem steps_add_stut (p p' : PSt) (l : List Ev) (h : runLog pstep p l = some p') :
+    nSteps p l + nStut p l = l.length := by
+  induction l generalizing p with
+  | nil => rfl
+  | cons e es ih =>
+    simp only [runLog] at h
+    cases hs : pstep p e with
+    | none => simp [hs] at h
+    | some p1 =>
+      simp only [hs] at h
+      have := ih p1 h
+      simp only [nSteps, nStut, hs, List.length_cons]
+      split <;> omega
+
 def pinit (n K : Nat) (ident : Nat → Nat) (fixCas fixCtor : Bool) (srcs : Nat) (ops : Nat → List Op) (m : Nat) : PSt :=
   ⟨init n K ident fixCas fixCtor srcs, ops, m⟩
 
